@@ -189,7 +189,15 @@ impl Sys {
             detail: format!(
                 "{}\n events: {}\n observed since last quiescent point: {}",
                 detail,
-                self.events.join("; "),
+                if self.events.len() > 40 {
+                    format!(
+                        "({} earlier events) ...; {}",
+                        self.events.len() - 20,
+                        self.events[self.events.len() - 20..].join("; ")
+                    )
+                } else {
+                    self.events.join("; ")
+                },
                 self.w
                     .obs_since(self.mark)
                     .iter()
@@ -201,7 +209,7 @@ impl Sys {
                 "scenario": self.scenario,
                 "params": self.params,
                 "choices": self.w.chz.choices(),
-                "events": self.events,
+                "events": if self.events.len() > 200 { self.events[self.events.len() - 200..].to_vec() } else { self.events.clone() },
             }),
         };
         self.violations.push(v);
@@ -440,6 +448,17 @@ impl Sys {
     pub fn ack_for(&self, i: usize, reason: u8, tag: &str) -> Option<SPacket> {
         let o = &self.m.ops[i];
         let pid = o.pid;
+        // an acknowledgement that is already on its way (context not polled yet) is not sent twice
+        if let Some(pid) = pid {
+            let in_flight = self.m.inbox.iter().any(|p| match p {
+                SPacket::Ack { pid: q, ty, .. } => *q == pid && *ty != 6,
+                SPacket::Suback { pid: q, .. } | SPacket::Unsuback { pid: q, .. } => *q == pid,
+                _ => false,
+            });
+            if in_flight {
+                return None;
+            }
+        }
         let props = if tag.is_empty() {
             vec![]
         } else {
